@@ -705,11 +705,11 @@ func genRaw(t *rapid.T) Case {
 
 func gen(t *rapid.T) Case {
 	switch rapid.IntRange(0, 11).Draw(t, "class") {
-	case 0, 1, 2, 3:
+	case 0, 1, 2:
 		return genMutation(t)
-	case 4, 5, 6:
+	case 3, 4, 5:
 		return genShape(t)
-	case 7, 8, 9:
+	case 6, 7, 8, 9:
 		return genSem(t)
 	default:
 		return genRaw(t)
